@@ -51,7 +51,10 @@ def generate(ctx):
                 ops.append(["del_cell", t, rng.randrange(len(cells))])
             elif r < 0.28:
                 ops.append(["add_monitor", t, rng.randrange(len(cells)), rng.choice(["neuron.spike", "connection.synspike", "neuron.voltage",
-                                                                                     "neuron:out", "connection:in", "neuron.voltage:diff"]),
+                                                                                     "neuron:out", "connection:in", "neuron.voltage:diff",
+                                                                                     # the cell's documented alias attributes and private names
+                                                                                     "prespike", "precurrent", "postspike", "postvoltage",
+                                                                                     "synapse.spike", "neuron_.refrac", "connection_.weight"]),
                             rng.randrange(2), rng.random() < 0.3])
             elif r < 0.33:
                 ops.append(["del_monitor", t, rng.randrange(len(cells)), rng.randrange(2)])
@@ -141,6 +144,12 @@ class World:
             return self.last_in[(L, c)].float()
         if attr == "neuron.voltage:diff":
             return self.layers[L].get_neuron(n).voltage - self.prev_v[(L, n)]
+        conn, nrn = self.layers[L].get_connection(c), self.layers[L].get_neuron(n)
+        alias = {"prespike": lambda: conn.synspike, "precurrent": lambda: conn.syncurrent, "postspike": lambda: nrn.spike,
+                 "postvoltage": lambda: nrn.voltage, "synapse.spike": lambda: conn.synapse.spike, "neuron_.refrac": lambda: nrn.refrac,
+                 "connection_.weight": lambda: conn.weight}
+        if attr in alias:
+            return alias[attr]()
         comp, leaf = attr.split(".")
         obj = self.layers[L].get_neuron(n) if comp == "neuron" else self.layers[L].get_connection(c)
         return getattr(obj, leaf)
@@ -265,6 +274,8 @@ def run_case(ctx, desc):
                 probes[ti][(name_of(ci), pname)] = attr
                 if ":" in attr:
                     ctx.count("probes_of_other_monitor_kinds")
+                if attr in ("prespike", "precurrent", "postspike", "postvoltage", "synapse.spike", "neuron_.refrac", "connection_.weight"):
+                    ctx.count("probes_on_cell_alias_attributes")
             elif k == "replace_trainer_monitor":
                 ci = op[2]
                 if name_of(ci) not in reg[ti] or tk == "LinearHomeostasis":
